@@ -49,11 +49,12 @@ Qed.
 
 Lemma holds_model c : valid c -> holds c (run_model c) = [].
 Proof.
-  destruct c as [ml ms a b | ml ms ht srcs sys pd pv fk fv]; cbn [valid run_model].
+  destruct c as [ml ms a b | ml ms ht srcs sys pd pv fk fv | ml ms a b c']; cbn [valid run_model].
   - intros [Wa Wb]. cbn [holds]. now apply holds_merge_model.
   - intros _. rewrite comp_get_fold, comp_find_spec.
     destruct (find_spec 0 (map mk_source srcs) fk fv) as [sl sr] eqn:Ef.
     cbn [holds]. unfold holds_chain. rewrite Ef.
     rewrite gres_eqb_refl, (list_eqb_refl' call_eqb) by apply call_eqb_refl.
     rewrite (list_eqb_refl' Nat.eqb) by apply Nat.eqb_refl. now rewrite ostr_eqb_refl.
+  - intros E. cbn [holds]. unfold holds_assoc. now rewrite E.
 Qed.
